@@ -59,8 +59,25 @@ def run(ctx):
     # no type specifier at all
     for t in ["static", "const", "static const", "extern volatile"]:
         lines.append("v " + t.encode().hex())
-    ctx.log("%d cases (%d plain exhaustive up to length %d)" % (len(lines), nplain, maxlen))
-    impl, model = stages.run_both(ctx, "specifiers", lines)
+    # INDEPENDENCE OF DECLARATIONS: the same sequences with another (valid) declaration in front of them - a previous variable, parameter,
+    # field or typedef, the function's return type, a previous block declaration: the verdict and the type must be those of the sequence alone
+    # (seeded change C08-c let the combining state of one specifier list leak into the next)
+    PRIMERS = ["_Complex", "_Complex float", "float _Complex", "long", "long long", "unsigned", "signed", "short", "double", "long double", "char", "long _Complex double",
+               "unsigned long long", "_Bool", "signed char"]
+    nprimed = 0
+    for c in "vpftrb":
+        for pr in PRIMERS:
+            for j, sq in enumerate(seqs):
+                if len(sq) > (3 if ctx.quick else 4):
+                    break
+                if ctx.quick and len(sq) == 3 and (j + len(pr)) % 2:
+                    continue
+                lines.append("%s:%s %s" % (c, pr.encode().hex(), " ".join(sq).encode().hex()))
+                nprimed += 1
+    ctx.log("%d cases (%d plain exhaustive up to length %d, %d behind another declaration)" % (len(lines), nplain, maxlen, nprimed))
+    from .. import leanb
+    impl = stages.run_harness(ctx, "specifiers", lines)
+    model = leanb.model("specifiers", "\n".join({"r": "p", "b": "v"}.get(l[0], l[0]) + " " + l.split()[1] for l in lines) + "\n")
     nviol = ncorr = 0
     valid_rows = set()
     for l, i, m in zip(lines, impl, model):
@@ -69,6 +86,9 @@ def run(ctx):
         idg = canon_diags(idg)
         c, hx = l.split()
         text = bytes.fromhex(hx).decode()
+        if ":" in c:
+            text += "   (after a declaration with the specifiers [%s], position %s)" % (bytes.fromhex(c.split(":")[1]).decode(), c[0])
+            c = c[0]
         base = ity
         if base.startswith("(Q"):
             base = base[base.index("_") + 1:-1]
@@ -115,7 +135,8 @@ def replay(ctx, rec):
     from .. import leanb
     leanb.lake_build(["psymodel"])
     l = rec["replay"]["case"]
-    impl, model = stages.run_both(ctx, "specifiers", [l])
+    impl = stages.run_harness(ctx, "specifiers", [l])
+    model = leanb.model("specifiers", {"r": "p", "b": "v"}.get(l[0], l[0]) + " " + l.split()[1] + "\n")
     print("case  :", l.split()[0], bytes.fromhex(l.split()[1]).decode())
     print("binder:", impl[0])
     print("model :", model[0], "  (type diags SPEC)")
